@@ -96,13 +96,21 @@ type RowE struct {
 
 var alphabet = []rune{'a', 'b', 'Z', '0', ',', ',', '"', '"', '\n', '\r', ' ', ' ', '\t', ';', '\'', '\\', '.', 'é', '漢', ' ', '#', '=', '-'}
 
+// tokens are texts that LOOK like the output of an escaping layer (JSON, HTML, CSV, Go): a codec
+// that post-processes its encoded bytes textually trips over them.
+var tokens = []string{`\u0026`, `\u003c`, `\u003e`, `\u0022`, `\n`, `\"`, `\\`, `&`, `<`, `>`, `&amp;`, `""`, `\u`, "\u2028", "\x00", "</script>", "null", "NaN"}
+
 func genString(t *rapid.T, label string) (string, bool) {
 	n := rapid.IntRange(0, 8).Draw(t, label+"_len")
-	rs := make([]rune, n)
-	for i := range rs {
-		rs[i] = rapid.SampledFrom(alphabet).Draw(t, label)
+	var sb strings.Builder
+	for i := 0; i < n; i++ {
+		if rapid.IntRange(0, 7).Draw(t, label+"_tok") == 0 {
+			sb.WriteString(rapid.SampledFrom(tokens).Draw(t, label+"_t"))
+			continue
+		}
+		sb.WriteRune(rapid.SampledFrom(alphabet).Draw(t, label))
 	}
-	s := string(rs)
+	s := sb.String()
 	// a CR LF inside a field is read back as LF by encoding/csv itself: recorded single-input
 	// finding, excluded by construction (and counted)
 	excluded := false
